@@ -3,7 +3,7 @@ diffing, known findings, evidence and the VIOLATION / KNOWN-FINDING output contr
 import fcntl, glob, hashlib, json, os, re, subprocess, sys, time
 
 ROOT = os.path.dirname(os.path.dirname(os.path.abspath(__file__)))
-REPO = "/repo"
+REPO = os.environ.get("VERIF_REPO", "/repo")   # VERIF_REPO: run the checks against a scratch worktree (seeded-change testing)
 BUILD = os.path.join(ROOT, "build")
 COQ = os.path.join(ROOT, "coq")
 GUARD = "rumqtt_verif"
@@ -243,10 +243,17 @@ def cargo_driver(binname, release=False):
         if not os.path.exists(lock_dst):
             open(lock_dst, "wb").write(open(lock_src, "rb").read())
         cmd = ["cargo", "build", "--offline", "--bin", binname] + (["--release"] if release else [])
-        rc, out = sh(cmd, cwd=os.path.join(ROOT, "harness"), env={"RUSTFLAGS": RUSTFLAGS}, timeout=3000)
+        env = {"RUSTFLAGS": RUSTFLAGS}
+        tdir = os.path.join(BUILD, "target")
+        if REPO != "/repo":
+            # same harness, but the two crates are taken from the scratch worktree
+            cmd += ["--config", 'paths=["%s/rumqttd","%s/rumqttc"]' % (REPO, REPO)]
+            tdir = os.path.join(BUILD, "target-alt")
+            env["CARGO_TARGET_DIR"] = tdir
+        rc, out = sh(cmd, cwd=os.path.join(ROOT, "harness"), env=env, timeout=3000)
         if rc != 0:
             return None, out
-        return os.path.join(BUILD, "target", "release" if release else "debug", binname), ""
+        return os.path.join(tdir, "release" if release else "debug", binname), ""
 
 
 def run_on_file(exe, path, args=(), timeout=3000):
